@@ -115,7 +115,7 @@ def main(run):
                 "non-trivial = distinct (type, mode-relevant shape of the dictionary) and distinct reached states")
     run.assumptions = ["non-empty importance dictionary (>= 1 explained observation)",
                        "a quotient whose exact value exceeds the float range is outside the statement"]
-    run.require("ixai/explainer/base.py:BaseIncrementalFeatureImportance._normalize_importance_values",
+    run.require("ixai/explainer/base.py:BaseIncrementalFeatureImportance.get_normalized_importance_values",
                 "ixai/explainer/base.py:BaseIncrementalFeatureImportance.get_confidence_bound")
     rnd = random.Random(run.shard_seed)
     fp_events = []
